@@ -31,8 +31,9 @@ if TYPE_CHECKING:
 #   - Specify xgcm.Axis name and "axis positions" instead of numpy axes as (ax_name:ax_pos)
 
 _AXIS_NAME = r"\w+"
+_AXIS_POSITION_WORDS = "center|left|right|inner|outer"
 _AXIS_POSITION = (
-    "(?:center|left|right|inner|outer)"  # TODO use VALID_POSITION_NAMES here instead
+    f"(?:{_AXIS_POSITION_WORDS})"  # TODO use VALID_POSITION_NAMES here instead
 )
 _AXIS_NAME_POSITION_PAIR = f"{_AXIS_NAME}:{_AXIS_POSITION}"
 _AXIS_NAME_POSITION_PAIR_LIST = (
@@ -41,6 +42,13 @@ _AXIS_NAME_POSITION_PAIR_LIST = (
 _ARGUMENT = rf"\({_AXIS_NAME_POSITION_PAIR_LIST}\)"
 _ARGUMENT_LIST = f"{_ARGUMENT}(?:,{_ARGUMENT})*"
 _SIGNATURE = rf"^{_ARGUMENT_LIST}->{_ARGUMENT_LIST}\Z"
+_CAPTURED_PAIR = f"({_AXIS_NAME}):({_AXIS_POSITION_WORDS})"
+
+
+def _split_names_and_positions(arg: str) -> Tuple[Tuple[str, ...], Tuple[str, ...]]:
+    """Split the text of one argument, e.g. '(X:center,Y:left)', into names and positions."""
+    pairs = re.findall(_CAPTURED_PAIR, arg)
+    return tuple(n for n, _ in pairs), tuple(p for _, p in pairs)
 
 
 def _maybe_unpack_vector_component(
@@ -230,23 +238,17 @@ def _parse_signature_from_string(
 
     in_txt, out_txt = signature.split("->")
 
-    in_ax_names = []
-    for arg in re.findall(_ARGUMENT, in_txt):
-        # Delete the axis positions so they aren't matched as axis names
-        only_names = re.sub(_AXIS_POSITION, "", arg)
-        in_ax_names.append(tuple(re.findall(_AXIS_NAME, only_names)))
-
-    out_ax_names = []
-    for arg in re.findall(_ARGUMENT, out_txt):
-        only_names = re.sub(_AXIS_POSITION, "", arg)
-        out_ax_names.append(tuple(re.findall(_AXIS_NAME, only_names)))
-
-    in_ax_pos = [
-        tuple(re.findall(_AXIS_POSITION, arg)) for arg in re.findall(_ARGUMENT, in_txt)
+    in_split = [
+        _split_names_and_positions(arg) for arg in re.findall(_ARGUMENT, in_txt)
     ]
-    out_ax_pos = [
-        tuple(re.findall(_AXIS_POSITION, arg)) for arg in re.findall(_ARGUMENT, out_txt)
+    out_split = [
+        _split_names_and_positions(arg) for arg in re.findall(_ARGUMENT, out_txt)
     ]
+
+    in_ax_names = [names for names, _ in in_split]
+    in_ax_pos = [positions for _, positions in in_split]
+    out_ax_names = [names for names, _ in out_split]
+    out_ax_pos = [positions for _, positions in out_split]
 
     return in_ax_names, in_ax_pos, out_ax_names, out_ax_pos
 
